@@ -10,7 +10,7 @@ Proof. exact int_roundtrip. Qed.
 Print Assumptions C40_int_roundtrip.
 
 Theorem C40_year_roundtrip :
-  forall y, (1901 <= y <= 2155)%Z -> decodes_to (VYear y) (enc_year y) = true.
+  forall y, in_domain (VYear y) = true -> decodes_to (VYear y) (enc_year y) = true.
 Proof. exact year_roundtrip. Qed.
 Print Assumptions C40_year_roundtrip.
 
@@ -47,11 +47,6 @@ Theorem C40_time2_neg59_refuted :
     /\ dec_time2 (enc_time2 true h mi s us) = Some (true, 0, 0, 63, 500000).
 Proof. exact time2_neg59_refuted. Qed.
 Print Assumptions C40_time2_neg59_refuted.
-
-Theorem C40_year_zero_refuted :
-  exists y, in_domain (VYear y) = true /\ decodes_to (VYear y) (enc_year y) = false /\ dec_year (enc_year y) = Some 2048%Z.
-Proof. exact year_zero_refuted. Qed.
-Print Assumptions C40_year_zero_refuted.
 
 Theorem C40_decimal_pp_refuted :
   exists prec scale neg ip fp, in_domain (VDecimal prec scale neg ip fp) = true /\ model_enc (VDecimal prec scale neg ip fp) = None.
@@ -109,24 +104,17 @@ Theorem C40_double_roundtrip :
 Proof. exact double_roundtrip. Qed.
 Print Assumptions C40_double_roundtrip.
 
-(* partial: scalar documents only; arrays/objects are executed (json_examples) and checked by correspondence;
-   the full statement is refuted by the two theorems that follow *)
+(* partial: scalar documents only; arrays/objects (incl. keys >= 256 bytes and oversize elements, the two repaired classes)
+   are executed (json_examples, json_key256_regression, json_oversize_regression) and checked by correspondence *)
 Theorem C40_json_scalar_roundtrip_partial :
   forall v, in_domain (VJson v) = true -> jv_scalar v = true ->
     exists b, enc_json_doc v = Some b /\ decodes_to (VJson v) b = true.
 Proof. exact json_scalar_roundtrip_partial. Qed.
 Print Assumptions C40_json_scalar_roundtrip_partial.
 
-Theorem C40_json_key256_refuted :
-  exists v b, in_domain (VJson v) = true /\ enc_json_doc v = Some b /\ decodes_to (VJson v) b = false
-              /\ dec_json_doc 64 b = Some (JObj [(nil, JNull)]).
-Proof. exact json_key256_refuted. Qed.
-Print Assumptions C40_json_key256_refuted.
-
-Theorem C40_json_underflow_refuted :
-  exists v b, in_domain (VJson v) = true /\ enc_json_doc v = Some b /\ dec_json_doc 64 b = None.
-Proof. exact json_underflow_refuted. Qed.
-Print Assumptions C40_json_underflow_refuted.
+Theorem C40_json_key_len_roundtrip : forall n, n < 65536 -> le_val (cons (n mod 256) (cons ((n / 256) mod 256) nil)) = n.
+Proof. exact json_key_len_roundtrip. Qed.
+Print Assumptions C40_json_key_len_roundtrip.
 
 Theorem C40_oracle_on_model :
   forall v, in_domain v = true -> proved_class v -> oracle v (model_obs v) = true.
